@@ -9,7 +9,7 @@ use crate::{
   obs::Obs,
   record::{record, Ev},
   rng::Rng,
-  spec::{build_box, Spec},
+  spec::Spec,
 };
 
 pub fn def() -> PropDef {
@@ -37,7 +37,7 @@ fn gen(rng: &mut Rng, tier: Tier) -> Value {
     cfg.max_text = 200;
   }
   let spec = gen_case(rng, &cfg);
-  json!({ "spec": spec })
+  json!({ "spec": spec, "share_instances": rng.chance(1, 2) })
 }
 
 pub fn is_composite(spec: &Spec) -> bool {
@@ -51,7 +51,7 @@ pub fn is_composite(spec: &Spec) -> bool {
 
 fn check(case: &Value, obs: &mut Obs) {
   let spec = super::spec_of(case);
-  let src = build_box(&spec);
+  let src = super::build_under_test(case, &spec, obs);
   let expected = spec.model_text();
   let source = src.source().to_string();
   // the model is only used to make the case classes meaningful; C01 itself
